@@ -87,9 +87,12 @@ func RunProperty(repo, verifDir, prop, tier string, seed int) int {
 		return 2
 	}
 	cfg := DefaultConfig()
+	cfg.QuickLoopCap = 2
 	if tier == "thorough" {
-		cfg.QueryMs = 20000
+		cfg.QueryMs = 30000
 		cfg.MaxPaths = 20000
+		cfg.QuickLoopCap = 0
+		cfg.UnitSec = 3000
 	}
 	// orphaned contracts are a fault of the check, not a pass
 	var faults []string
@@ -105,7 +108,12 @@ func RunProperty(repo, verifDir, prop, tier string, seed int) int {
 	for _, fn := range fns {
 		specs = append(specs, UnitSpec{Fn: fn, Opt: Options{UseRequires: true, CheckPosts: true}, Why: "root", Kind: "function"})
 	}
+	var thoroughOnly []string
 	for _, fn := range lemmas {
+		if strings.HasSuffix(fn.Name(), "_T") && tier != "thorough" {
+			thoroughOnly = append(thoroughOnly, strings.TrimPrefix(fn.Name(), "gvcL_"))
+			continue // heavy lemma: thorough tier only (listed in the evidence)
+		}
 		specs = append(specs, UnitSpec{Fn: fn, Opt: Options{}, Why: "root", Kind: "lemma"})
 	}
 	if plan.Special != nil {
@@ -303,6 +311,7 @@ func RunProperty(repo, verifDir, prop, tier string, seed int) int {
 			"assumption_scan":          map[string]int{"assume_in_spec_files": specAssumes, "trusted_contracts": specTrusted, "bounded_loops": specBounded, "assume_calls_executed": nAssume},
 			"source_digest":            SourceDigest(repo),
 			"faults":                   faults,
+			"lemmas_run_in_thorough_tier_only": thoroughOnly,
 		},
 		Assumptions: as,
 		WallS:       round3(time.Since(t0).Seconds()),
